@@ -20,4 +20,3 @@ pose proof (is_RInt_Chasles _ _ _ _ _ _ A B) as C.
 replace t with (plus (scal (t - 0) 1) (scal (1 - t) 0)) at 2; [exact C|].
 unfold plus, scal; simpl; unfold mult; simpl; lra.
 Qed.
-Print Assumptions extra_int.
